@@ -350,6 +350,7 @@ func runC08(c *Ctx) {
 		importRules(c, runC04, map[string]string{"C04.R3": "C08.R11"}, map[string]string{"C08.R11": "the list-valued modifiers the twin test compares element by element are sorted when a rule is loaded, so twins written in a different order compare equal (shared with C04.R3)"})
 		importRules(c, runC16, map[string]string{"C16.R8": "C08.R13"}, map[string]string{"C08.R13": "a modifier parsed later never wipes the option bits parsed before it, $badfilter among them (shared with C16.R8): '$badfilter,document' must stay a badfilter rule"})
 		importRules(c, runC12, map[string]string{"C12.R7": "C08.R12"}, map[string]string{"C08.R12": "a rule and its twin reach the engine as whole lines, however long (shared with C12.R7): a twin cut inside ',badfilter' is rejected and disables nothing"})
+		importRules(c, runC11, map[string]string{"C11.R4": "C08.R14"}, map[string]string{"C08.R14": "a rule and its twin are retrieved from a file-backed list as the whole lines they were scanned as (shared with C11.R4): a twin cut short on retrieval loses its badfilter modifier"})
 		importRules(c, runC01, map[string]string{"C01.R6": "C08.R8", "C01.R2": "C08.R8", "C01.R3": "C08.R8"}, map[string]string{"C08.R8": "the twin is indexed like any rule: tables decline only exact duplicates, first accepting table (shared with C01.R2/R6)"})
 	}
 	{
